@@ -393,9 +393,7 @@ class Run:
                     f.write(cb.export())
                 cfg["certBlock"] = "cb.bin"
             else:
-                with open(os.path.join(td, "cb.json"), "w") as f:
-                    json.dump(cb_cfg, f)
-                cfg["certBlock"] = "cb.json"
+                cfg["certBlock"] = self.write_cb_config(td, cb_cfg, len(pre_cmds))
             cfg["signPrivateKey"] = key_path(ks["isk"], "isk")
         else:
             cb_cfg["useIsk"] = False
@@ -408,9 +406,7 @@ class Run:
                         f.write(cb.export())
                     cfg["certBlock"] = "cb.bin"
                 else:
-                    with open(os.path.join(td, "cb.json"), "w") as f:
-                        json.dump(cb_cfg, f)
-                    cfg["certBlock"] = "cb.json"
+                    cfg["certBlock"] = self.write_cb_config(td, cb_cfg, len(pre_cmds))
             else:
                 cfg.update(cb_cfg)
             cfg["signPrivateKey" if vc.get("new_names") else "mainRootCertPrivateKeyFile"] = root_key
@@ -425,6 +421,28 @@ class Run:
         if ks.get("isk"):
             self.probe("config_with_isk_certblock_" + vc.get("certblock", "file"))
         return S.SecureBinary31.load_from_config(cfg, search_paths=[td])
+
+    def write_cb_config(self, td: str, cb_cfg: dict, ncmds: int) -> str:
+        """The certificate block configuration lives in a folder of its own (shared between projects), next to files that
+        happen to have the names of this project's command files."""
+        if not self.plan["via_config"].get("cb_subdir"):
+            with open(os.path.join(td, "cb.json"), "w") as f:
+                json.dump(cb_cfg, f)
+            return "cb.json"
+        sub = os.path.join(td, "certs")
+        os.makedirs(sub, exist_ok=True)
+        rel = dict(cb_cfg)
+        if rel.get("iskCertData") or rel.get("signCertData"):
+            k = "iskCertData" if rel.get("iskCertData") else "signCertData"
+            rel[k] = os.path.join(td, rel[k])
+        with open(os.path.join(sub, "cb.json"), "w") as f:
+            json.dump(rel, f)
+        for i in range(ncmds):
+            for ext in (".bin", ".txt"):
+                with open(os.path.join(sub, f"d{i}{ext}"), "wb") as f:
+                    f.write(b"decoy" * 7 if ext == ".bin" else b"00" * 16)
+        self.probe("cert_block_config_in_its_own_folder")
+        return os.path.join(sub, "cb.json")  # (absolute: its folder is added to the search paths as it is written)
 
     def build(self):
         p = self.plan
@@ -510,13 +528,9 @@ class Run:
             # another container was built and exported in this process before (other keys, PCK, timestamp, rights):
             # nothing of it may leak into this one
             sub = Run(p["prelude"])
-            try:
-                sub.execute()
-            finally:
-                if sub.td:
-                    import shutil
-
-                    shutil.rmtree(sub.td, ignore_errors=True)
+            sub.execute()
+            if sub.td:
+                self.td = sub.td  # the same project folder: the same file names with other contents
             self.records += sub.records
             self.log.add("prelude", sub.log.digest())
             self.probe("container_built_after_another_in_the_same_process")
@@ -804,7 +818,7 @@ def gen_cmd(rng: random.Random) -> dict:
     if t == "configure_memory":
         return {"t": t, "a": a, "m": m}
     if t == "fill_memory":
-        return {"t": t, "a": a, "l": rng.choice([4, 0x100, rng.randrange(1 << 32)]), "p": rng.choice([0, 0xFFFFFFFF, 0xA5A5A5A5, rng.randrange(1 << 32)])}
+        return {"t": t, "a": a, "l": rng.choice([4, 0x100, rng.randrange(1 << 32)]), "p": rng.choice([0, 0xFFFFFFFF, 0xA5A5A5A5, rng.randrange(1 << 32), 0x5A, 0xFF, 0x1234, 0xFFFF, 1])}
     if t == "fw_version_check":
         return {"t": t, "v": rng.randrange(1 << 32), "c": rng.randint(1, 5)}
     return {"t": "reset"}
@@ -843,6 +857,7 @@ def gen_plan(family: str, i: int, rng: random.Random, tier: str) -> dict:
             "auto_root_id": rng.random() < 0.3,
             "new_names": rng.random() < 0.5,
             "certblock": rng.choice(["inline", "file", "bin"]),
+            "cb_subdir": rng.random() < 0.5,
         }
         for o in ops:
             if o["op"] == "add":
@@ -865,7 +880,8 @@ def gen_plan(family: str, i: int, rng: random.Random, tier: str) -> dict:
     if family == "history":
         if rng.random() < 0.35:
             plan["prelude"] = gen_plan("control", i, rng, tier)
-            plan["prelude"].pop("via_config", None)
+            if not plan.get("via_config"):
+                plan["prelude"].pop("via_config", None)  # (two configuration builds share one project folder)
         for _ in range(rng.randint(1, 4)):
             r = rng.random()
             if r < 0.45:
